@@ -1085,6 +1085,14 @@ func (g *ggen) partialOf(env genv, t *gty) *gnode {
 			e.kids = append(e.kids, &gnode{op: "int", n: g.r.Intn(5), t: tInt})
 			continue
 		}
+		// fc evaluates the given arguments where the partial application stands (fix of D9): any
+		// expression of a first-order type may be given.  tinyfo keeps them inside the closure:
+		// its profile stays with effect-free arguments.
+		if !gTiny && f.ptys[i].k != "fun" && g.r.Intn(2) == 0 {
+			e.kids = append(e.kids, g.inline(env, f.ptys[i], 1))
+			g.hit("partial-application-computed-argument")
+			continue
+		}
 		e.kids = append(e.kids, g.pure(env, f.ptys[i]))
 	}
 	g.hit("partial-application")
